@@ -393,6 +393,16 @@ def canonicalise(ob, rational=False):
                 form[i] = ("p", p_const(Fraction(float(cval(a)) ** float(cval(e)))))
                 continue
             form[i] = ("p", atom_poly(mk(["pow", mat(a), const_node(_round_exp(cval(e))) if is_const(e) else mat(e)])))
+        elif op == "cbrt":
+            a = poly_of(n[1])
+            if is_const(a):
+                c = float(cval(a))
+                form[i] = ("p", p_const(Fraction(abs(c) ** (1.0 / 3.0) * (1 if c >= 0 else -1))))
+            else:
+                # cbrt(g p) = cbrt(g) cbrt(p) for every real g > 0 and every real p (the cube root is odd and multiplicative)
+                g, q = factor_positive(a)
+                used.add("positive constant factors moved out of cbrt")
+                form[i] = ("p", p_scale(atom_poly(mk(["cbrt", mat(q)])), Fraction(float(g) ** (1.0 / 3.0))))
         elif op in ("lt", "le", "eq"):
             form[i] = ("b", mk([op, node_of(n[1]), node_of(n[2])]))
         elif op in ("and", "or"):
